@@ -36,10 +36,11 @@ def noise_std(y, mask, S_yxm, S_mxm, per_feature):
     yxm = f64(S_yxm)[0]
     mxm = f64(S_mxm)[0]
     m = mask.astype(bool)
-    num = np.where(m, y ** 2 - 2 * yxm + mxm, 0.0)
+    w = mask.astype(np.float64)  # 0/1 for a mask; relative weights of the observations otherwise (weighted RMS residual)
+    num = np.where(m, w * (y ** 2 - 2 * yxm + mxm), 0.0)
     if per_feature:
-        return np.sqrt(num.sum(axis=(0, 1)) / m.sum(axis=(0, 1)))
-    return np.sqrt(num.sum() / m.sum())
+        return np.sqrt(num.sum(axis=(0, 1)) / w.sum(axis=(0, 1)))
+    return np.sqrt(num.sum() / w.sum())
 
 
 def responsibilities(nll_regul_ind_sum_ind):
